@@ -50,3 +50,33 @@ package models
 //@   pure
 //@   safety -overflow
 //@   ensures result == nil ==> len(o.Vector) >= 1 && len(o.Vector) <= 4096 && o.Limit >= 1 && o.Limit <= 75 && o.Operator == "near"
+
+// ---- request points (property C18) ----
+// The id of a request point: taken from its "_id" field, which must be a string holding a uuid,
+// and removed from the map; a point without the field gets a fresh id only when asked to.
+//@ func (PointAsMap).ExtractIdField
+//@   property C18
+//@   safety -overflow -nil
+//@   allocates
+//@   modifies p
+//@   ensures !old(contains(p, "_id")) && !createNew ==> result1 != nil
+//@   ensures result1 == nil && old(contains(p, "_id")) ==> !contains(p, "_id") && ncalls(Parse) == 1 && callres(Parse, 1, 1) == nil && result0 == callres(Parse, 1, 0)
+//@   ensures result1 != nil ==> contains(p, "_id") == old(contains(p, "_id"))
+
+// The schema check of a point walks and normalises map[string]any values (outside the verifier's
+// subset: trusted frame - it changes only the maps of the point; its accept/refuse behaviour is
+// covered by the bounded stand-in of the thorough tier).
+//@ func (IndexSchema).CheckCompatibleMap
+//@   trusted
+//@   allocates
+//@   modifies pointMap
+
+// A search request is accepted only with a validated query, at most 10 sort keys, a non-negative
+// offset and a limit between 1 and 100.
+//@ func (SearchRequest).Validate
+//@   property C18
+//@   pure
+//@   safety -overflow
+//@   ensures result == nil ==> r.Limit >= 1 && r.Limit <= 100 && r.Offset >= 0 && len(r.Sort) <= 10
+//@   ensures result == nil ==> callres(Validate, 1, 0) == nil
+//@   loop 1 invariant rangeindex >= -1 && rangeindex < len(r.Sort)
